@@ -1,7 +1,8 @@
 // UNIT RGZ — a block of a gzip file (C12: at every block size the block handed out for offset `bo` holds exactly the bytes
 // [bo*blocksz, ...) of the uncompressed data).  BlockReader::read_block_FileGz (src/readers/blockreader.rs) fills a block by
 // repeated reads of at most 2056 bytes from the decoder; a read may return fewer bytes than asked for (flate2 does so every 32 KiB),
-// so the write cursor must advance by what was RETURNED.  The set-up statements and the chunk loop are cut from the function.
+// so the write cursor must advance by what was RETURNED.  The set-up statements and the chunk loop are cut from the function;
+// likewise for read_block_FileBz2 and read_block_FileLz4 (defect D8: it used to read once).
 // Contract: if the loop falls through, the block holds the next `blocksz_u` bytes of the decoder's stream, in order, and the stream
 // has advanced by exactly that much -- whatever the sizes of the individual reads.
 // Assumed by contract (stand-in, R9): `std::io::Read::read` on the decoder (Ok(n): n <= the slice's length, the first n bytes of the
@@ -34,7 +35,7 @@ pub type ResultS3ReadBlock = ResultS3<BlockP, Error>;
 pub fn err_from_err_path_results3(err: &Error, path: &FPath, mesg: Option<&str>) -> (r: ResultS3ReadBlock) ensures r is Err { unimplemented!() }
 
 /// the decoder: a stream of uncompressed bytes and a cursor
-pub struct GzStream { pub ghost data: Seq<u8>, pub ghost pos: nat }
+pub struct GzStream { pub ghost data: Seq<u8>, pub ghost pos: nat, pub ghost eof_seen: bool }
 /// stand-in (R9) for `(self.gz.as_mut().unwrap().decoder).read(buf[..readsz].as_mut())`
 #[verifier::external_body]
 pub fn verif_gz_read<const N: usize>(gz: &mut GzStream, buf: &mut [u8; N], readsz: usize) -> (r: core::result::Result<usize, Error>)
@@ -107,6 +108,8 @@ pub fn verif_read_tail(gz: &mut GzStream, block: &mut Vec<u8>, start: usize) -> 
         r is Ok ==> start + r->Ok_0 <= old(block)@.len() && final(gz).pos == old(gz).pos + r->Ok_0 && old(gz).pos + r->Ok_0 <= old(gz).data.len()
             && forall|i: int| 0 <= i < r->Ok_0 ==> #[trigger] final(block)@[start + i] == old(gz).data[old(gz).pos + i],
         r is Err ==> final(gz).pos == old(gz).pos,
+        // Ok(0) for a non-empty slice means the end of the data
+        final(gz).eof_seen == (old(gz).eof_seen || (r is Ok && r->Ok_0 == 0 && start < old(block)@.len())),
 { unimplemented!() }
 impl BlockReader {
     #[verifier::external_body]
@@ -144,19 +147,43 @@ impl BlockReader {
 }
 
 impl BlockReader {
-    /// the same for an LZ4 file (read_block_FileLz4)
+    /// the same for an LZ4 file (read_block_FileLz4; defect D8: it used to call read() once and take the block as filled).  The
+    /// block may come out short only when the decoder reported the end of the data (the checks that follow in the function then
+    /// turn a short block that is not the file's last into an error)
     #[verifier::exec_allows_no_decreases_clause]
     pub fn lz4_fill_block(&mut self, blocksz_u: usize, bo_at: BlockOffset, blockoffset: BlockOffset, blockoffset_last: BlockOffset) -> (r: ResultS3ReadBlock)
-        requires old(self).gz.pos <= old(self).gz.data.len()
+        requires old(self).gz.pos <= old(self).gz.data.len(), !old(self).gz.eof_seen
         ensures
             final(self).gz.data == old(self).gz.data,
-            r is Found ==> r->Found_0@ == old(self).gz.data.subrange(old(self).gz.pos as int, old(self).gz.pos + blocksz_u)
-                && final(self).gz.pos == old(self).gz.pos + blocksz_u,
+            r is Found ==> r->Found_0@.len() <= blocksz_u
+                && r->Found_0@ == old(self).gz.data.subrange(old(self).gz.pos as int, (old(self).gz.pos + r->Found_0@.len()) as int)
+                && final(self).gz.pos == old(self).gz.pos + r->Found_0@.len()
+                && (r->Found_0@.len() == blocksz_u || final(self).gz.eof_seen),
     {
         let ghost d = self.gz.data; let ghost p0 = self.gz.pos;
-//@cut slice path=src/readers/blockreader.rs impl=BlockReader fn=read_block_FileLz4 anchor="let mut block = Block::with_capacity(blocksz_u);" take=range end_anchor="match reader.read(&mut block.as_mut_slice())" label=LZ4-FILL
-//@replace "reader.read(&mut block.as_mut_slice())" "verif_read_tail(&mut self.gz, &mut block, 0)"
+//@cut slice path=src/readers/blockreader.rs impl=BlockReader fn=read_block_FileLz4 anchor="let mut block = Block::with_capacity(blocksz_u);" take=range end_anchor="while bytes_read < blocksz_u" label=LZ4-FILL
+//@replace "reader.read(&mut block[bytes_read..])" "verif_read_tail(&mut self.gz, &mut block, bytes_read)"
 //@replace "self.count_bytes_read += size as Count;" "verif_count_add(&mut self.count_bytes_read, size as Count);"
+//@before "bytes_read += size;"
+                        let ghost br0 = bytes_read;
+//@after "bytes_read += size;"
+                        proof {
+                            assert forall|i: int| 0 <= i < bytes_read implies #[trigger] block@[i] == d[p0 + i] by {
+                                if i >= br0 { let j = i - br0; assert(block@[br0 + j] == d[(p0 + br0) + j]); }
+                            }
+                        }
+//@after "block.truncate(bytes_read);"
+                            proof { assert(block@ =~= d.subrange(p0 as int, p0 + bytes_read)); }
+//@loop 1
+                invariant_except_break
+                    block@.len() == blocksz_u, !self.gz.eof_seen,
+                invariant
+                    self.gz.data == d, d == old(self).gz.data, p0 == old(self).gz.pos, bytes_read <= blocksz_u,
+                    self.gz.pos == p0 + bytes_read, p0 + bytes_read <= d.len(),
+                    forall|i: int| 0 <= i < bytes_read ==> #[trigger] block@[i] == d[p0 + i],
+                ensures
+                    block@.len() <= blocksz_u, block@ =~= d.subrange(p0 as int, (p0 + block@.len()) as int), self.gz.pos == p0 + block@.len(),
+                    block@.len() == blocksz_u || self.gz.eof_seen,
 //@end
         ResultS3ReadBlock::Found(BlockP::new(block))
     }
